@@ -679,6 +679,9 @@ class Evaluator(object):
         if c.indirect:
             f = self.operand(fid, body, env, t["func"])
             results = self.apply(f, args, fid, (bb, "fp"), env, path)
+        if results is None and c.name == "from" and c.trait in ("std::convert::From", "core::convert::From") and len(args) == 1 and not c.local and \
+                (c.self_arg_s or "") in SCALARS and any((a.get("s") in SCALARS) for a in c.type_args()[1:]):
+            results = [("val", env, path, ("cast", "IntToInt", args[0]))]   # integer / bool widening: the value itself
         if results is None and self.policy.models:
             # the head of one iteration of a `for` / `while let` loop
             if (region is not None and c.name == "next" and c.trait in ITER_TRAITS and not path.events and not path.conds
@@ -882,10 +885,13 @@ class Evaluator(object):
             for k in carried:
                 env0[k] = ("lvar", L.id, k)
             L.source = L.raw_source = None
+            env0.pop("mem", None)   # forwarded stores do not survive a loop head (the body may overwrite the place)
             res = iterate(env0)
             written = set()
             for (end, e_env, e_path, ret, target) in res:
                 for k, v in env.items():
+                    if k == "mem":
+                        continue
                     if k not in carried and e_env.get(k) != v:
                         written.add(k)
             if not written:
@@ -896,7 +902,15 @@ class Evaluator(object):
         L.carried = dict((k, env[k]) for k in carried)
         L.iters = []
         for (end, e_env, e_path, ret, target) in res:
-            L.iters.append(Iter(e_path, end, dict((k, e_env.get(k)) for k in carried), ret=ret, target=target, env=e_env))
+            ups = {}
+            for k in carried:
+                v = simplify(e_env.get(k), e_path)
+                lv = ("lvar", L.id, k)
+                # writing back the value the variable is known to have on this way is no change
+                if v is not None and v[0] == "int" and any(ct == lv and cn is None and cv == v[1] for (ct, cv, cn, cs) in e_path.conds):
+                    v = lv
+                ups[k] = v
+            L.iters.append(Iter(e_path, end, ups, ret=ret, target=target, env=e_env))
         return L
 
     def real_loop(self, fid, body, header, env, path):
@@ -982,39 +996,124 @@ class Evaluator(object):
                 src = src[2][0]
             L.source = src
             return
-        # `while i < hi { ..; i += 1 }`
+        # `while i < hi { ..; i += 1 }` (also `loop { if i >= hi { break } ..; i += 1 }`) and the countdown
+        # `while r > 0 { ..; r -= 1 }` whose body does not look at r
         for k, init in L.carried.items():
             lv = ("lvar", L.id, k)
             firsts = [it.conds[0] for it in L.iters if it.conds]
             if len(firsts) != len(L.iters) or not firsts:
                 continue
             a = firsts[0][0]
-            if not (a[0] == "bin" and a[1] == "Lt" and a[2] == lv and not _mentions_loop(a[3], L.id)):
+            if any(f[0] != a for f in firsts) or a[0] != "bin":
                 continue
-            if any(f[0] != a for f in firsts):
+            rel = _rel_to(a, lv)     # (op, other): `lv op other` is what the atom says when true
+            if rel is None or _mentions_loop(rel[1], L.id):
                 continue
-            ok = True
-            for it in L.iters:
-                if it.conds[0][1] == 1:
-                    if it.end == "continue" and not _is_incr(it.updates.get(k), lv):
+            op, other = rel
+
+            def inside(v):
+                """does the decided value of the atom mean `the counter is still in range`?"""
+                if op in ("Lt", "Ne") and up:
+                    return v == 1
+                if op in ("Ge", "Eq") and up:
+                    return v == 0
+                if op in ("Gt", "Ne") and not up:
+                    return v == 1
+                if op in ("Le", "Eq") and not up:
+                    return v == 0
+                return None
+            for up in (True, False):
+                if not up and other != ("int", 0):
+                    continue
+                if op in ("Ne", "Eq") and up and init != ("int", 0):
+                    continue
+                ok = True
+                for it in L.iters:
+                    ins = inside(it.conds[0][1])
+                    if ins is None:
                         ok = False
-                    if it.end in ("break",) and False:
-                        ok = False
-                else:
-                    if it.end != "break" or len(it.conds) != 1 or any(e[0] != "call" or e[2].name not in ("len", "deref", "as_ref", "borrow") for e in it.events):
-                        ok = False
-            # the counter is not written except by the increment
-            if not ok:
-                continue
-            L.kind = "counter"
-            L.elem = lv
-            L.source = L.raw_source = ("agg", "adt", "std::ops::Range::Range", (init, a[3]), ("start", "end"))
-            L.iter_ty = "std::ops::Range<usize>"
-            for it in L.iters:
-                if it.conds[0][1] == 0:
-                    it.end = "done"
-                it.path.conds = it.path.conds[1:]
-            return
+                    elif ins:
+                        if it.end == "continue" and not (_is_incr(it.updates.get(k), lv) if up else _is_decr(it.updates.get(k), lv)):
+                            ok = False
+                    else:
+                        if it.end != "break" or len(it.conds) != 1 or any(e[0] != "call" or e[2].name not in ("len", "deref", "as_ref", "borrow") for e in it.events):
+                            ok = False
+                if ok and not up:
+                    # the value of a countdown is not the index of a front-to-back traversal: only allowed if unused
+                    for it in L.iters:
+                        used = [c for c in it.conds[1:] if _mentions_term(c[0], lv)] + [e for e in it.events if e[0] in ("call", "store") and _mentions_term(e[3], lv)]
+                        if used or any(_mentions_term(v, lv) for kk, v in it.updates.items() if kk != k) or (it.ret is not None and _mentions_term(it.ret, lv)):
+                            ok = False
+                if not ok:
+                    continue
+                L.kind = "counter"
+                L.elem = lv if up else ("countdown", L.id)
+                L.source = L.raw_source = ("agg", "adt", "std::ops::Range::Range", ((init, other) if up else (("int", 0), init)), ("start", "end"))
+                L.iter_ty = "std::ops::Range<usize>"
+                for it in L.iters:
+                    if not inside(it.conds[0][1]):
+                        it.end = "done"
+                    it.path.conds = it.path.conds[1:]
+                return
+
+
+def _rel_to(atom, lv):
+    """atom is a comparison with `lv` on one side: (op, other side) with lv on the left."""
+    flip = {"Lt": "Gt", "Gt": "Lt", "Le": "Ge", "Ge": "Le", "Eq": "Eq", "Ne": "Ne"}
+    if atom[0] != "bin" or atom[1] not in flip:
+        return None
+    if atom[2] == lv:
+        return atom[1], atom[3]
+    if atom[3] == lv:
+        return flip[atom[1]], atom[2]
+    return None
+
+
+def _mentions_term(t, x):
+    if t == x:
+        return True
+    if not isinstance(t, tuple):
+        return False
+    return any(_mentions_term(y, x) for y in t if isinstance(y, tuple))
+
+
+def _is_decr(t, base):
+    if t is None:
+        return False
+    if t[0] == "field" and t[2] == "0" and isinstance(t[1], tuple) and t[1][0] == "bin":
+        t = t[1]
+    return t[0] == "bin" and t[1].startswith("Sub") and t[2] == base and t[3] == ("int", 1)
+
+
+def simplify(t, path):
+    """Fold what the path already knows into a term: decided boolean atoms become constants, `x | false`, `x & true`
+    and friends disappear."""
+    if not isinstance(t, tuple) or not t:
+        return t
+    for (ct, cv, cn, cs) in path.conds:
+        if ct == t and cv in (0, 1) and cn is None:
+            return ("int", cv)
+    k = t[0]
+    if k == "bin":
+        a, b = simplify(t[2], path), simplify(t[3], path)
+        op = t[1]
+        if op in ("BitOr", "BitAnd", "BitXor"):
+            for x, y in ((a, b), (b, a)):
+                if x[0] == "int" and x[1] in (0, 1):
+                    if op == "BitOr":
+                        return ("int", 1) if x[1] else y
+                    if op == "BitAnd":
+                        return y if x[1] else ("int", 0)
+                    if op == "BitXor" and x[1] == 0:
+                        return y
+        return fold_bin(op, a, b) if (a[0] == "int" and b[0] == "int") else ("bin", op, a, b)
+    if k == "un" and t[1] == "Not":
+        a = simplify(t[2], path)
+        return ("int", 0 if a[1] else 1) if a[0] == "int" else ("un", "Not", a)
+    if k == "cast":
+        a = simplify(t[2], path)
+        return a if a[0] == "int" else ("cast", t[1], a)
+    return t
 
 
 class _Promoted(object):
